@@ -936,9 +936,12 @@ class CeiloChunk(AbstractChunk):
         # Loop through every group, and look for sub-layers in it ...
         for ind in range(len(self.groups)):
 
-            # Let's extract the heights of all the hits in this group ...
-            gro_heights = self.data.loc[self.data.loc[:, 'group_id'] ==
-                          self._groups.at[ind, 'cluster_id'], 'height'].to_numpy()
+            # Let's extract the heights of all the hits in this group, **ordered in time** (most recent
+            # last), as required to compute the base height of its sub-layers consistently with
+            # metarize() no matter the order of the rows in the data ...
+            gro_hits = self.data.sort_values('dt').loc[
+                self.data.loc[:, 'group_id'] == self._groups.at[ind, 'cluster_id']]
+            gro_heights = gro_hits['height'].to_numpy()
 
             # Only look for multiple layers if it is worth it ...
             # 1) Layer density is large enough
@@ -985,9 +988,7 @@ class CeiloChunk(AbstractChunk):
 
             # If I need to split it, assign suitable layer ids
             if ncomp > 1:
-                self.data.loc[self.data.loc[:, 'group_id'] ==
-                              self._groups.at[ind, 'cluster_id'], 'layer_id'] = \
-                    lid_offset+10*ind+sub_layers_id
+                self.data.loc[gro_hits.index, 'layer_id'] = lid_offset+10*ind+sub_layers_id
 
         # Deal with the points that have not been assigned a layer id yet
         to_fill = self.data['layer_id'].isna()
